@@ -18,6 +18,7 @@ from __future__ import annotations
 import ast
 import os
 import random
+import re
 
 from graphql import (FieldNode, FragmentDefinitionNode, InlineFragmentNode, OperationDefinitionNode, StringValueNode,
                      parse)
@@ -110,8 +111,11 @@ class Case:
         if any(not mixin_ok(m) for ms in self.op_mixins for m in ms) or any(not mixin_ok(m) for m in self.frag_dirs):
             self.conditions.add("bad-mixin-args")
         self.modules = [None if o.name is None else scen.method_name(o.name.value) for o in self.ops]
+        # "colliding file names": among the names the generator checks, between two operations (F29: the check
+        # works on dict keys) or with a file written unchecked (F28) — the documented refusal applies to all
         names = self.checked_names()
-        if len(names) != len(set(names)):
+        mods = [m for m in self.modules if m is not None]
+        if len(names) != len(set(names)) or len(mods) != len(set(mods)) or set(self.unchecked_names()) & set(names):
             self.conditions.add("duplicate-files")
 
     # file names _validate_unique_file_names is documented to keep apart
@@ -126,6 +130,17 @@ class Case:
                      (False, True): ("base_client_open_telemetry", "BaseClientOpenTelemetry"),
                      (False, False): ("base_client", "BaseClient")}[(a, o)]
         return stem + ".py", stem, cls, True
+
+    def unchecked_names(self):
+        """files generate() writes without looking at them in _validate_unique_file_names"""
+        out = ["__init__.py"]
+        if self.custom_ops:
+            out += CUSTOM_FILES[:2]
+            if self.schema.query_type is not None:
+                out.append(CUSTOM_FILES[2])
+            if self.schema.mutation_type is not None:
+                out.append(CUSTOM_FILES[3])
+        return out
 
     def include_names(self):
         return [os.path.basename(f) for f in self.sc.config.get("files_to_include", [])]
@@ -161,16 +176,15 @@ class Case:
             out.add("F23-abstract-type-condition")
         if self.custom_ops and not (cfg.get("include_all_inputs", True) and cfg.get("include_all_enums", True)):
             out.add("F25-custom-operations-pruned-types")
-        unchecked = (CUSTOM_FILES if self.custom_ops else []) + ["__init__.py"]
-        if set(unchecked) & set(self.checked_names()):
+        if set(self.unchecked_names()) & set(self.checked_names()):
             out.add("F28-unchecked-file-names")
         mods = [m for m in self.modules if m is not None]
         if len(mods) != len(set(mods)):
             out.add("F29-colliding-operation-modules")
         if self.custom_ops and cfg.get("input_types_module_name", "input_types") != "input_types":
             out.add("F30-custom-operations-input-module-name")
-        if "weird_names" in self.sc.features:
-            out.add("F18-name-mangling")
+        if re.search(r"(?<![A-Za-z0-9_])_+[0-9]", self.sc.sdl + (self.sc.queries or "")):
+            out.add("F18-underscore-digit-name")
         return out
 
     def replay(self, **extra) -> dict:
@@ -269,6 +283,54 @@ def model_command(case: Case, target: str | None):
         ops.append([Sym(o.operation.value), None if o.name is None else [Sym("some"), o.name.value], mx,
                     pub(m) if m else []])
     return [Sym("generate"), c, s, ops]
+
+
+# ------------------------------------------------------------------------------------------------- the corpus
+CORPUS_SDL = """
+interface Node { id: ID! }
+interface Animal implements Node { id: ID! name: String }
+type Dog implements Node & Animal { id: ID! name: String bark: Int }
+type Cat implements Node & Animal { id: ID! name: String }
+enum Color { RED GREEN }
+enum Unused { A B }
+input Filter { color: Color q: String }
+input UnusedIn { u: Unused }
+type Query { animal(f: Filter): Animal node(id: ID!): Node dogs(c: Color): [Dog!]! s(x: String): String byUnused(u: UnusedIn, e: Unused): Int }
+type Mutation { m(i: Filter!): Dog }
+type Subscription { tick: Int }
+"""
+CUSTOM = {"enable_custom_operations": True}
+# minimised inputs of every finding class and of every documented refusal; run first, deterministically
+CORPUS = [
+    ("F2", "query Q($c: Boolean!) { animal { ... @include(if: $c) { name } } }", {}),
+    ("F5-quote", 'query Q { s(x: "it\'s") }', {}),
+    ("F5-block", 'query Q { s(x: """block\n  string""") }', {}),
+    ("F7-self", "query Q($self: ID!) { node(id: $self) { id } }", {}),
+    ("F7-kwargs", "query Q($kwargs: ID!) { node(id: $kwargs) { id } }", {}),
+    ("F23", "query Q { animal { ... on Node { id } name } }", {}),
+    ("F25", "query Q { animal { name } }", dict(CUSTOM, include_all_enums=False, include_all_inputs=False)),
+    ("F28-custom-fields", "query customFields { s }", CUSTOM),
+    ("F28-custom-queries", "query customQueries { s }", CUSTOM),
+    ("F29", "query GetX { s } query getX { animal { name } }", {}),
+    ("F30", "query Q { s }", dict(CUSTOM, input_types_module_name="inputs")),
+    ("refuse-anonymous", "{ s }", {}),
+    ("refuse-subscription-sync", "subscription T { tick }", {"async_client": False}),
+    ("refuse-duplicate-files", "query client { s }", {}),
+    ("refuse-bad-mixin", 'query Q { animal @mixin(from: ".x") { name } }', {}),
+    ("refuse-bad-mixin-fragment", 'query Q { s } fragment F on Dog @mixin(import: "X") { name }', {}),
+    ("ok-subscription-async", "subscription T { tick }", {"async_client": True}),
+    ("ok-custom-operations", "query Q { animal { name } }", CUSTOM),
+    ("ok-op-named-like-unwritten-custom-file", "query customFields { s }", {}),
+]
+
+
+def corpus_cases() -> list:
+    out = []
+    for i, (name, q, cfg) in enumerate(CORPUS):
+        sc = scenario.Scenario(seed=-1 - i, sdl=CORPUS_SDL, queries=q + "\n", config=dict(cfg), features=("corpus",),
+                               notes={"corpus": name, "pinned": sorted(cfg)})
+        out.append(Case0(sc, "corpus"))
+    return out
 
 
 # ------------------------------------------------------------------------------------------------ the streams
@@ -450,7 +512,7 @@ SYMPTOMS = {
     "F28-unchecked-file-names": lambda k, d: k in ("import-failed", "reported-files", "modules-listed"),
     "F29-colliding-operation-modules": lambda k, d: k == "operation-without-own-method" or (k == "import-failed" and "cannot import name" in d),
     "F30-custom-operations-input-module-name": lambda k, d: k == "import-failed" and "No module named" in d and ".input_types'" in d,
-    "F18-name-mangling": lambda k, d: k in ("import-failed", "generation-crash", "operation-without-own-method"),
+    "F18-underscore-digit-name": lambda k, d: (k == "generation-crash" and "InvalidInput" in d) or (k == "import-failed" and "SyntaxError" in d),
 }
 
 
@@ -478,7 +540,7 @@ def run(ctx):
         "(read from the generated modules); their correctness is C01/C08/C09's business",
     ]
     k2(ctx)
-    cases = build_cases(ctx)
+    cases = corpus_cases() + build_cases(ctx)
     with workers.Scratch(prefix="vh-c04-") as scratch:
         gens, loads = execute(cases, scratch)
         cmds = [model_command(c, g.res.get("target") if g.ok else None) for c, g in zip(cases, gens)]
@@ -608,6 +670,8 @@ def k1_compare(c: Case, g, ld, m, v) -> list:
             out.append(("k1-refusal", f"model refuses with {m[1]}, generator raised {v.get('exc')}"))
         return out
     _ok, written, reported, imports, all_, guard = m
+    if (guard == "f") != ("F28-unchecked-file-names" in c.classes()):
+        out.append(("k1-guard", f"model guard g_c04_files = {guard}, harness class predicate F28 = {'F28-unchecked-file-names' in c.classes()}"))
     if not g.ok:
         out.append(("k1-refusal", f"model generates, generator raised {v.get('exc')}"))
         return out
